@@ -62,11 +62,34 @@ def rule_escape(ck: Check, repo: Repo, cg: CallGraph, esc: Escape) -> None:
     r.count(n_pairs, prefix="pair")
     ck.extra["escape"] = {"fixpoint_rounds": esc.rounds, "command_exception_origin_triples": n_pairs}
     triaged = []
+    # a triage entry only discharges a pair while its side condition is re-established in THIS run
+    from . import c04, c09
+    from ..report import Check as _Check
+
+    def holds(fn, *a) -> bool:
+        tmp = _Check("tmp", ck.tier)
+        try:
+            fn(tmp, repo, *a)
+        except AnalysisError:
+            return False
+        return not any(r_.violations for r_ in tmp.rules)
+
+    proj_fn = repo.func("reuse.cli.common.ClickObj.project")
+    fr_calls = find_calls(proj_fn, lambda c, f: f == "find_root")
+    pe_src = re.sub(r"\s+", " ", ast.unparse(repo.func("reuse.report._process_error")))
+    side = {
+        "builtins.NotImplementedError": holds(c04.rule_exclusive),
+        "builtins.KeyError": holds(c09.rule_reuseinfo),
+        "builtins.NotADirectoryError": bool(fr_calls) and not any(c.args or c.keywords for c in fr_calls),
+        "reuse.report.error": "if isinstance(error, (bdb.BdbQuit, KeyboardInterrupt)): raise error" in pe_src,
+    }
     for (exc, origin), names in sorted(per_key.items()):
         ofn = origin.split("|")[0].strip()
         tri = TRIAGE.get((exc, ofn)) or TRIAGE.get((exc, ofn.replace("VCSStrategy*", "VCSStrategyGit")))
         if tri and exc == "builtins.NotADirectoryError":
             tri = TRIAGE[("builtins.NotADirectoryError", "reuse.vcs.VCSStrategyGit.find_root")]
+        if tri and side.get(exc, True) is False:
+            tri = None  # the reason the pair was considered infeasible no longer holds
         if tri:
             triaged.append({"exception": exc, "origin": origin, "reason": tri})
             continue
@@ -76,6 +99,7 @@ def rule_escape(ck: Check, repo: Repo, cg: CallGraph, esc: Escape) -> None:
                     + " ; ".join(chains[(exc, origin)][:4]), "",
                     {"commands": sorted(set(names)), "chain": chains[(exc, origin)]})
     ck.extra["triaged_infeasible"] = triaged
+    ck.extra["triage_side_conditions"] = side
     # side conditions of the triage table
     proj = repo.func("reuse.cli.common.ClickObj.project")
     fr = find_calls(proj, lambda c, f: f == "find_root")
